@@ -16,12 +16,15 @@ from kopf._cogs.configs import conventions, diffbase, progress
 from kopf._cogs.structs import bodies, dicts, diffs, patches
 
 logging.disable(logging.CRITICAL)
+from kopf._core.intents import handlers as _handlers
+from kopf._core.reactor import processing as _processing
 ENCODED = [diffs.diff_iter, diffs.reduce_iter, dicts.resolve, dicts.remove, dicts.ensure, dicts.cherrypick,
            diffbase.DiffBaseStorage.build, diffbase.AnnotationsDiffBaseStorage, diffbase.StatusDiffBaseStorage,
            diffbase.MultiDiffBaseStorage, progress.AnnotationsProgressStorage, progress.StatusProgressStorage,
-           progress.SmartProgressStorage, conventions.StorageKeyMarkingConvention, conventions.StorageStanzaCleaner]
+           progress.SmartProgressStorage, conventions.StorageKeyMarkingConvention, conventions.StorageStanzaCleaner,
+           _handlers.ResourceHandler.adjust_cause, _processing.process_resource_event]
 META = {
-    'bounds': 'templates {a: X, b: Y}; X in absent|leaf|{c: leaf}|{c: leaf, d: leaf} (thorough) ; Y in absent|leaf; leaf in '
+    'bounds': 'H5 (field view): a handled object (stored diff-base + finished progress) then one of 5 edits, an update handler on one of 4 fields, through one real processing step. Templates {a: X, b: Y}; X in absent|leaf|{c: leaf}|{c: leaf, d: leaf} (thorough) ; Y in absent|leaf; leaf in '
               'null|int(symbolic, unbounded)|[int]|{}|str(2 concrete values); field paths up to length 3; storage cells: '
               'annotations/status/smart progress x annotations/status/multi diff-base x v1 on/off; prefixes: 5 concrete + '
               'symbolic prefix of length<=6 over [a-z.] for the marker logic; handler ids: concrete short ids + one symbolic id char',
@@ -321,6 +324,87 @@ def h_other_operator(p0: int, p1: int, has_ann: bool, which: int, spec_v: int) -
     return vkopf.verdict(e1 == e0)
 
 
+# ------------------------------------------------------------------------------ H5 the view narrowed to a handler's field
+# (field='metadata' as a whole is left out: a handler's field is an 'extra field' of the essence, so it would pull the system
+# metadata -- resourceVersion and all -- into every comparison; that is documented behaviour of a degenerate declaration)
+FIELDS = ['spec', 'metadata.annotations', 'metadata.labels', 'spec.sub']
+
+
+def h_field_view(has_lbl: bool, has_status: bool, spec_v: int, what: int, fi: int) -> bool:
+    """
+    pre: 0 <= what <= 4 and 0 <= fi <= 3
+    post: _ == True
+    """
+    from vkopf.world import World, PLURAL
+    import kopf
+    vkopf.begin_path()
+    c = vkopf.cell()
+    what, fi = vkopf.pin('what', what), vkopf.pin('fi', fi)
+    spec_v = vkopf.choose(spec_v, [1, 2])
+    ps, ds = make_storages(c)
+    raw = sym_body(True, has_lbl, has_status, spec_v, 0)
+    raw['metadata']['finalizers'] = ['foreign/fin']
+    # the object was handled before: its last-handled state and a finished handler's progress are stored on it, through the
+    # real storages (so the body differs from its essence by exactly the framework's own data)
+    p0 = patches.Patch()
+    ds.store(body=bodies.Body(raw), patch=p0, essence=essence(ps, ds, raw))
+    ps.store(key='earlier', record=progress.ProgressRecord(started='2020-01-01T00:00:00', retries=1, success=True, failure=False,
+                                                           stopped='2020-01-01T00:00:01', purpose='create'), body=bodies.Body(raw), patch=p0)
+    raw = rfc7386(raw, dict(p0))
+    before = essence(ps, ds, raw)
+    # ... then somebody edits it
+    m = raw['metadata']
+    if what == 0:
+        raw['spec']['x'] = spec_v + 1
+    elif what == 1:
+        m.setdefault('annotations', {})['user/note'] = 'edited'
+    elif what == 2:
+        m.setdefault('labels', {})['tier'] = 'db'
+    elif what == 3:
+        m.setdefault('annotations', {})['user/extra'] = 'added'
+        raw['spec']['sub'] = {'y': 2, 'z': 3}
+    else:
+        m['annotations'].pop('user/note', None)
+        raw['spec']['sub'].pop('y')
+    after = essence(ps, ds, raw)
+    w = World(raw)
+    w.settings.persistence.progress_storage, w.settings.persistence.diffbase_storage = ps, ds
+    seen = []
+
+    @kopf.on.update(PLURAL, id='hf', registry=w.registry, field=FIELDS[fi])
+    async def hf(old, new, diff, **kw):
+        seen.append((copy.deepcopy(old), copy.deepcopy(new), [(str(getattr(o, 'value', o)), tuple(pth), a, b) for (o, pth, a, b) in diff]))
+
+    async def main():
+        await w.process('MODIFIED')
+    w.run(main())
+
+    def narrow(e, path):
+        for k in path.split('.'):
+            if not isinstance(e, dict) or k not in e:
+                return None
+            e = e[k]
+        return e
+    want_old, want_new = narrow(before, FIELDS[fi]), narrow(after, FIELDS[fi])
+    ok = True
+    if want_old != want_new:
+        # the field is affected: the handler runs, and sees exactly the essential old and new values of its field
+        if len(seen) != 1:
+            ok = False
+        else:
+            old, new, diff = seen[0]
+            vkopf.witness('field_view')
+            if old != want_old or new != want_new:
+                ok = False                      # (in particular nothing of the framework's own data shows up in it)
+            if apply_diff(old, diff) != new:
+                ok = False                      # applying diff to old yields new
+            if not diff:
+                ok = False
+    elif seen:
+        ok = False                              # an unaffected field does not select the handler
+    return vkopf.verdict(ok)
+
+
 def obligations():
     obs = []
     # diffs: quick = a sample of shape cells (split further by the presence of the second key), thorough = all shapes
@@ -357,4 +441,9 @@ def obligations():
     obs.append(Ob('h_other_operator', {'progress': 'annotations', 'diffbase': 'annotations', 'v1': True}, timeout=900,
                   twins=['foreign_write', 'kopf_dot_prefix']))
     obs.append(Ob('h_other_operator', {'progress': 'smart', 'diffbase': 'multi', 'v1': False}, tiers=('thorough',), timeout=900))
+    obs += split(Ob('h_field_view', {'progress': 'annotations', 'diffbase': 'annotations', 'v1': True}, timeout=900, twins=['field_view']),
+                 fi=[1, 3])
+    obs += split(Ob('h_field_view', {'progress': 'annotations', 'diffbase': 'annotations', 'v1': True}, timeout=900, tiers=('thorough',)), fi=[0, 2])
+    obs += split(Ob('h_field_view', {'progress': 'smart', 'diffbase': 'multi', 'v1': False, 'prefix': 'my.op.io'}, timeout=900, tiers=('thorough',)),
+                 fi=[0, 1, 2, 3])
     return obs
